@@ -79,6 +79,7 @@ class Probe(SourceProxy):
             self._ol = BaseOverlay(*rules)
             self._raw = raw
             self._activated = False
+            self._live = False
 
     def _make_emitter(self, sel):
         tags = set(sel.all_tags)
@@ -142,6 +143,10 @@ class Probe(SourceProxy):
 
         This is used internally.
         """
+        if not self._live:
+            # Deactivated: a generator that is still suspended inside the
+            # block may run our handler again, but the stream is over
+            return ABSENT
         if not self._raw:
             data = {name: cap.value for name, cap in data.items()}
         self._push(data)
@@ -152,6 +157,8 @@ class Probe(SourceProxy):
 
         Used for selectors with two focuses
         """
+        if not self._live:
+            return ABSENT
         if not self._raw:
             data = {name: cap.value for name, cap in data.items()}
 
@@ -176,10 +183,12 @@ class Probe(SourceProxy):
         self._activated = True
         global_probes.add(self)
         self._ol.__enter__()
+        self._live = True
         return self
 
     def _exit(self):
         # This is called on the root probe by the __exit__ method of a child.
+        self._live = False
         self._ol.__exit__(None, None, None)
         global_probes.remove(self)
         self._uninstall_tooling()
